@@ -1393,7 +1393,13 @@ def gen_C17(rng, tier):
     for k in range(max(4, n // 8)):
         big = F(2 ** rng.choice([34, 36, 40, 60, 60]))      # 2^60 x a length of a few units exceeds int64
         pts = sorted(rng.sample([F(j) for j in range(0, 12)], rng.randint(3, 5)))
-        vals = [rng.choice([F(0), None])] + [rng.choice([big, 2 * big, 3 * big, None, F(0)]) for _ in pts[:-1]] + [F(0)]
+        gaps = k % 2 == 0         # with undefined gaps (float values), or everywhere defined (values may be integer-typed)
+        vals = ([rng.choice([F(0), None] if gaps else [F(0), big])]      # (everything a multiple of `big`: exact in binary64)
+                + [rng.choice([big, 2 * big, 3 * big, None, F(0)] if gaps else [big, 2 * big, 3 * big, F(0)]) for _ in pts[:-1]] + [F(0)])
+        vals = [v for i, v in enumerate(vals) if i == 0 or True]
+        for i in range(1, len(vals)):          # keep the table minimal
+            if vals[i] == vals[i - 1]:
+                vals[i] = big if vals[i] != big else 2 * big
         if all(v is None or v == 0 for v in vals[1:-1]):
             vals[1] = big
         f = (pts, vals)
